@@ -64,6 +64,11 @@ def _validate_props(props_map, version, **kwargs):
         for prop_name, prop_value in props_map.items():
             if not re.match(PREFIX_21_REGEX, prop_name):
                 raise ValueError("Property name '%s' must begin with an alpha character." % prop_name)
+            if not re.fullmatch(r"[a-z][a-z0-9_]*", prop_name):
+                raise ValueError(
+                    "Property name '%s' must contain only the characters "
+                    "a-z (lowercase ASCII), 0-9, and underscore (_)." % prop_name,
+                )
     # Confirm conformance of reference properties
     _validate_ref_props(props_map, **kwargs)
 
